@@ -209,6 +209,43 @@ fn gen(rng: &mut Rng, n: usize, tier: &str) -> Vec<String> {
         let ops: Vec<String> = (0..len).map(|_| rand_op(rng)).collect();
         out.push(format!("{} {}", if init.is_empty() { "-".to_string() } else { init.join(",") }, ops.join(",")));
     }
+    // nested-frame family: well-bracketed nests of depth 2..3 whose frames write the SAME one or two keys, with
+    // the inner frames holding more entries than the outer ones as often as fewer (what a merge on commit must
+    // get right: the outermost recorded value per key wins, whatever the relative frame sizes)
+    for _ in 0..n / 2 {
+        let mut init = Vec::new();
+        for k in 0..NKEYS {
+            if rng.chance(1, 2) {
+                init.push(format!("{}={}", k, rand_val(rng)));
+            }
+        }
+        let nk = rng.range(1, 2);
+        let mut mutator = |rng: &mut Rng| -> String {
+            let k = rng.below(nk);
+            match rng.below(6) {
+                0..=3 => format!("S{}={}", k, rand_val(rng)),
+                4 => format!("N{}.{}={}", k, rng.below(2), rng.below(9)),
+                _ => format!("D{}", k),
+            }
+        };
+        let depth = rng.range(2, 3);
+        let mut ops: Vec<String> = Vec::new();
+        for _ in 0..depth {
+            ops.push("B".into());
+            for _ in 0..rng.below(4) {
+                ops.push(mutator(rng));
+            }
+        }
+        for lvl in 0..depth {
+            // the outermost frame is rolled back (that is what the property is about); inner ones mostly committed
+            let close = if lvl + 1 == depth { "R" } else if rng.chance(3, 4) { "C" } else { "R" };
+            ops.push(close.into());
+            if lvl + 1 < depth && rng.chance(1, 3) {
+                ops.push(mutator(rng));
+            }
+        }
+        out.push(format!("{} {}", if init.is_empty() { "-".to_string() } else { init.join(",") }, ops.join(",")));
+    }
     out
 }
 
